@@ -335,10 +335,10 @@ int liberasurecode_instance_create(const ec_backend_id_t id,
         return -EBACKENDINITERR;
     }
 
-    /* Register instance and return a descriptor/instance id */
-    instance->idesc = liberasurecode_backend_instance_register(instance);
-
-    return instance->idesc;
+    /* Register instance and return a descriptor/instance id
+     * (register stores it in instance->idesc while holding the lock; the
+     * instance is visible to other threads from then on, do not write it) */
+    return liberasurecode_backend_instance_register(instance);
 }
 
 /**
